@@ -99,7 +99,16 @@ func genFramingPlan(seed uint64, tier string) *Plan {
 			}
 		}
 		sortInts(op.Cuts)
+		if len(op.Cuts) > 0 && len(op.Cuts) <= 16 && g.chance(20) {
+			// a slow sender: seconds (or more than a minute) pass between segments, also in the middle of a message
+			op.I["gapMs"] = g.pick2(900, 6000, 31000, 70000)
+		}
 		p.Ops = append(p.Ops, op)
+	}
+	if !tcpBackend && g.chance(40) {
+		// the UDP backends answer every request; the answers travel back over the stream's own connection while the
+		// stream is still being received
+		c.Knobs = map[string]int{"answer": 1}
 	}
 	return p
 }
@@ -183,6 +192,11 @@ func execFraming(t *testing.T, p *Plan) *Result {
 	w := runWorld(t, p, func(w *World) {
 		st := newRelayState(w, &p.Cfg)
 		l := p.Cfg.Listens[0]
+		if p.Cfg.Knobs["answer"] == 1 {
+			newDlgWorld(w, p) // binds the UDP backends; each answers 200 to what it receives
+			w.stat("probe:answers-flow-back-over-the-stream-connection")
+		}
+		var slowest time.Duration
 		for i := range p.Ops {
 			op := &p.Ops[i]
 			if op.Kind != "stream" {
@@ -193,9 +207,17 @@ func execFraming(t *testing.T, p *Plan) *Result {
 				w.K.Failures = append(w.K.Failures, "harness: connect: "+err.Error())
 				return
 			}
-			c.WriteCuts(op.Data, op.Cuts)
+			if gap := time.Duration(op.I["gapMs"]) * time.Millisecond; gap > 0 {
+				c.WriteCutsGap(op.Data, op.Cuts, gap)
+				if total := gap * time.Duration(len(op.Cuts)+1); total > slowest {
+					slowest = total
+				}
+				w.stat("probe:slow-sender")
+			} else {
+				c.WriteCuts(op.Data, op.Cuts)
+			}
 		}
-		w.K.Settle(30 * time.Second)
+		w.K.Settle(30*time.Second + slowest)
 		if w.dead() {
 			return
 		}
